@@ -9,6 +9,7 @@ package main
 
 import (
 	"fmt"
+	"go/constant"
 	"go/token"
 	"go/types"
 	"sort"
@@ -320,4 +321,144 @@ func ruleKernelLocal(p *Prog, r *Report) {
 		}
 	}
 	r.Extra("kbnd_sites", n)
+}
+
+// ---- OBLIV: the portable kernels take no decision on the data ---------------------------------------------------
+//
+// The vector kernels are straight-line butterflies: the same additions and multiplications for every input. A
+// portable kernel that tests its samples (a shortcut for constant rows, a skip of zero blocks, a clamp) computes a
+// mathematically equal result by other operations — and on infinities, NaN, huge magnitudes and signed zeros the
+// two then differ in bits. In every DCT kernel function and its callees no branch condition and no selected value
+// may depend on a floating-point comparison.
+func ruleOblivious(p *Prog, r *Report) {
+	for _, f := range kernelPkgFns(p) {
+		key := fnName(f) + " | no decision on sample values"
+		bad := ""
+		n := 0
+		eachInstr(f, func(_ *ssa.BasicBlock, _ int, in ssa.Instruction) {
+			bo, ok := in.(*ssa.BinOp)
+			if !ok {
+				return
+			}
+			switch bo.Op {
+			case token.EQL, token.NEQ, token.LSS, token.LEQ, token.GTR, token.GEQ:
+			default:
+				return
+			}
+			n++
+			if isFloat(bo.X.Type()) || isFloat(bo.Y.Type()) {
+				bad = fmt.Sprintf("floating-point comparison %s %s %s at %s: the outcome of the kernel's control flow depends on the samples, which the branch-free vector kernel cannot mirror bit for bit (±Inf, NaN, -0, overflow part-way)", shortVal(bo.X), bo.Op, shortVal(bo.Y), p.posStr(instrPos(bo)))
+			}
+		})
+		eachCall(f, func(site ssa.CallInstruction) {
+			if sc := site.Common().StaticCallee(); sc != nil && sc.Pkg != nil && sc.Pkg.Pkg.Path() == "math" {
+				switch sc.Name() {
+				case "IsNaN", "IsInf", "Signbit", "Abs", "Max", "Min", "Float32bits", "Float64bits":
+					bad = "math." + sc.Name() + " at " + p.posStr(instrPos(site)) + ": the kernel inspects its samples"
+				}
+			}
+		})
+		if bad != "" {
+			r.Bad("OBLIV", key, p.posStr(f.Pos()), bad)
+		} else {
+			r.OK("OBLIV", key, p.posStr(f.Pos()), fmt.Sprintf("%d comparisons, all on integers (loop counters, lengths)", n))
+		}
+	}
+}
+
+// ---- LASTLANE: where the vector kernels add a shifted-in +0, the portable kernel adds +0 too ---------------------
+//
+// The vector kernels form the pair sums b[i] + b[i+1] of the 8-point step with one shift and one add:
+// VPSRLDQ $4, X, T (the four lanes move down, +0.0 is shifted into the last) then ADDPS T, X. Lanes 0..2 are the
+// pair sums; the last lane is b[3] + (+0.0) — not b[3]: for b[3] == -0 the sum is +0. The portable forwardDCT8
+// must compute its last output the same way (b[3] + 0; the compiler cannot fold a floating-point x + 0), or the two
+// kernels differ in the sign bit of the last coefficient of every level above for inputs that drive it to -0
+// (found on the vector [-0, +0, ..., +0], coefficients 56, 60, 62, 63 of the 64-point transform).
+func ruleLastLane(p *Prog, r *Report, af *asmFile) {
+	// (a) the premise, from the assembly: zero-filling shift followed by an add of source and result
+	for _, t := range af.texts {
+		if !strings.Contains(t.name, "DCT") {
+			continue
+		}
+		n := 0
+		for i, in := range t.instrs {
+			if in.mn != "VPSRLDQ" || len(in.ops) != 3 || in.ops[0].kind != "imm" || in.ops[0].imm != 4 {
+				continue
+			}
+			src, dst := in.ops[1].reg, in.ops[2].reg
+			if src == "" || dst == "" || src == dst {
+				continue
+			}
+			// the next instruction that mentions dst
+			for j := i + 1; j < len(t.instrs) && j < i+6; j++ {
+				nx := t.instrs[j]
+				uses := false
+				for _, o := range nx.ops {
+					if o.kind == "reg" && o.reg == dst {
+						uses = true
+					}
+				}
+				if !uses {
+					continue
+				}
+				if nx.mn == "ADDPS" && len(nx.ops) == 2 && nx.ops[0].reg == dst && nx.ops[1].reg == src {
+					n++
+				}
+				if nx.mn == "VADDPS" && len(nx.ops) == 3 {
+					a, b := nx.ops[0].reg, nx.ops[1].reg
+					if (a == dst && b == src) || (a == src && b == dst) {
+						n++
+					}
+				}
+				break
+			}
+		}
+		key := "asm_x86.s " + t.name + " | pair sums by zero-filling shift and add"
+		if n == 0 {
+			r.Bad("LASTLANE", key, fmt.Sprintf("asm_x86.s:%d", t.line), "the shift-and-add idiom (VPSRLDQ $4 then ADDPS of source and result) is no longer found: the premise under which the portable kernel adds +0 to its last lane has changed — re-derive which lanes the vector kernel computes as x + 0")
+		} else {
+			r.OK("LASTLANE", key, fmt.Sprintf("asm_x86.s:%d", t.line), fmt.Sprintf("%d sites: the last lane of each is x + (+0.0)", n))
+		}
+	}
+	// (b) the portable 8-point step adds +0 to its last output
+	f := p.Func("imagehash/transforms32", "", "forwardDCT8")
+	key := "imagehash/transforms32.forwardDCT8 | last output is b[3] + 0"
+	if f == nil {
+		r.Undecided("LASTLANE", key, "-", "unresolved anchor")
+		return
+	}
+	found, ok := false, false
+	at := p.posStr(f.Pos())
+	eachInstr(f, func(_ *ssa.BasicBlock, _ int, in ssa.Instruction) {
+		st, isSt := in.(*ssa.Store)
+		if !isSt {
+			return
+		}
+		ia, isIA := st.Addr.(*ssa.IndexAddr)
+		if !isIA || ia.X != ssa.Value(f.Params[0]) {
+			return
+		}
+		if k, isK := constInt(ia.Index); !isK || k != 7 {
+			return
+		}
+		found = true
+		at = p.posStr(instrPos(st))
+		if bo, isBo := st.Val.(*ssa.BinOp); isBo && bo.Op == token.ADD {
+			for _, o := range []ssa.Value{bo.X, bo.Y} {
+				if c, isC := o.(*ssa.Const); isC && c.Value != nil && isFloat(c.Type()) {
+					if fv, _ := constant.Float64Val(constant.ToFloat(c.Value)); fv == 0 && constant.Sign(c.Value) == 0 {
+						ok = true
+					}
+				}
+			}
+		}
+	})
+	switch {
+	case !found:
+		r.Undecided("LASTLANE", key, at, "no store to input[7] found")
+	case !ok:
+		r.Bad("LASTLANE", key, at, "the last output is stored without the addition of +0 that the vector kernels perform on that lane: for an input that makes it -0 (e.g. [-0, +0, ..., +0]) the portable kernel returns -0 where the vector kernel returns +0, in the last coefficient of this and of every enclosing level")
+	default:
+		r.OK("LASTLANE", key, at, "stored as a sum with the constant +0, as in the vector kernels")
+	}
 }
